@@ -72,8 +72,11 @@ def ptStep (cmp : Nat → Nat → Int) (pt : PTree.PT) (op : Op) (ok : Bool) : P
   | .removeAll => PTree.removeAll pt
   | _ => pt
 
-/-- the two Lean models agree: same tree (shape, colours, keys, values), same size -/
-def ptAgrees (pt : PTree.PT) (t : TreeTable) : Bool := PTree.toTree pt == t.root && pt.size == t.size
+/-- the two Lean models agree: same tree (shape, colours, keys, values), same size — and the pointer-level
+state is well-formed in full (`PTree.wfB`: every parent pointer, the sentinel's fields, no node twice, `size`,
+allocation serial, every tree node live in the heap; sound for `PTree.WF` by `Proofs/PTreeWfB.wfB_sound`) -/
+def ptAgrees (pt : PTree.PT) (t : TreeTable) : Bool :=
+  PTree.toTree pt == t.root && pt.size == t.size && PTree.wfB pt
 
 def content (m : OrdMap) : String :=
   s!"keys={fmtList (OrdMap.keys m)} vals={fmtList (OrdMap.values m)} size={m.length}"
